@@ -45,7 +45,8 @@ CLAUSES = {
     "ping/pong": "proved (pingpong_roundtrip)",
     "parse-only message classes (headers, cfilter, cfheaders, cfcheckpt)": "proved: parse (Spec.encode m) = m (headers_parse_encode, headers_rejects_txcount, cfilter_parse_encode, cfheaders_parse_encode, cfcheckpt_parse_encode); Spec = Buidl.Spec.Wire written from the protocol documentation",
     "serialise-only message classes (getheaders, getdata, getcfilters/getcfheaders, getcfcheckpt)": "proved: Spec.decode (serialize m) = m (getheaders_decode_serialize, getdata_decode_serialize, getcfilters_decode_serialize, getcfcheckpt_decode_serialize)",
-    "version message, merkleblock parse": "model = byte layout transcribed from the protocol documentation; correspondence-only",
+    "version message": "proved: Spec.decodeVersion (serialize m) = m for fields of protocol width (version_decode_serialize, version_serialize_eq); observation O19c: ports are written little-endian (the protocol says big-endian), self-consistent, version is never parsed by the library",
+    "merkleblock parse": "model = byte layout transcribed from the protocol documentation (Spec.encodeMerkleBlock); correspondence-only at the message level, the proof content of merkleblock is C17's",
 }
 TRUSTED = ["hash256 is a parameter of every theorem; the driver instantiates it with Buidl.Model.Hash.SHA256 "
            "(checked against hashlib by harness/hash_selftest.py)"]
